@@ -737,7 +737,7 @@ def check_c16(tier, seed):
 
 # ---------------------------------------------------------------- C19: feature configurations
 
-VARIANTS = ["std_nodim", "stdrelease_nodim", "libm_dim", "libm_nodim", "micromath_dim", "micromath_nodim"]
+VARIANTS = ["std_nodim", "stdrelease_nodim", "stddebug_dim", "libm_dim", "libm_nodim", "micromath_dim", "micromath_nodim"]
 import re as _re
 _VAL = _re.compile(r"[0-9a-f]{8}")
 
@@ -910,11 +910,11 @@ def check_c19(tier, seed, only_run=None, only_mode=None, only_build=None):
             "trace_lines_compared": ops_compared,
             "runs_per_hour": int(compared / max(wall, 1e-6) * 3600),
             "exemptions": "values of runs containing an EWMA or exponent node: libm within 1e-4 of the run's value scale, micromath category+timestamp only",
-            "components": {"real": ["every rrtk type reached by the node, comb, device and settable worlds, in seven build configurations"],
+            "components": {"real": ["every rrtk type reached by the node, comb, device and settable worlds, in eight build configurations"],
                            "stub": ["leaf sensors, clocks, motors, reference build as oracle"]},
             "exhaustive": False,
         },
-        "assumptions": ["the std + dim_check_release build is the reference; agreement of all seven builds is what is checked (the seventh: default features with the rrtk package compiled without debug assertions)",
+        "assumptions": ["the std + dim_check_release build is the reference; agreement of all eight builds is what is checked (seventh and eighth: the crate's default features with the rrtk package compiled without / with debug assertions)",
                         "plan generation is build-independent (no float-library calls on the generation path that differ between builds)"] + ASSUMPTIONS[3:],
         "wall_s": round(wall, 3),
         "violations": violations,
